@@ -289,13 +289,14 @@ func judge(run *vc.Run, d *pipeline.Design, verbose bool) {
 			if strings.HasPrefix(dg, "gen/") {
 				genBroken = true
 			}
+			if !strings.HasPrefix(dg, "gen/") {
+				// `goa example` output is C01's subject, not part of C10's statement
+				run.Count("example_diagnostics_left_to_C01", 1)
+				continue
+			}
 			if !seen[k] {
 				seen[k] = true
-				what := "accepted gRPC design generates transport code that does not compile against protoc-gen-go's Go API: "
-				if !strings.HasPrefix(dg, "gen/") {
-					what = "accepted gRPC design: `goa example` output does not compile (C01 witness, outside the gRPC transport packages): "
-				}
-				run.Violation(k, what+dg, w)
+				run.Violation(k, "accepted gRPC design generates transport code that does not compile against protoc-gen-go's Go API: "+dg, w)
 			}
 		}
 	}
